@@ -128,6 +128,17 @@ pub fn set_dial_failure(f: Option<(usize, u8)>) {
     DIAL_FAILURE.with(|d| d.set(f));
 }
 
+thread_local! {
+    /// (index of the connection, bytes it takes, io error kind code): the writes of that connection fail once it
+    /// has taken that many bytes; what its script holds stays readable
+    static WRITE_FAULT: std::cell::Cell<Option<(usize, usize, u8)>> = const { std::cell::Cell::new(None) };
+}
+
+/// the `i`-th connection of the next `run_send` breaks for writing after `k` bytes with that I/O error kind
+pub fn set_write_fault(f: Option<(usize, usize, u8)>) {
+    WRITE_FAULT.with(|d| d.set(f));
+}
+
 pub struct CustomBody {
     pub kind: CustomKind,
     pub ctype: Option<String>,
@@ -561,6 +572,7 @@ fn finish<B: attohttpc::body::Body>(rb: attohttpc::RequestBuilder<B>, case: &Sen
         obs.prepared_headers.push((n.as_str().to_string(), v.as_bytes().to_vec()));
     }
     let dial_failure = DIAL_FAILURE.with(|d| d.take());
+    let write_fault = WRITE_FAULT.with(|d| d.take());
     let mut send_once = |prepared: &mut attohttpc::PreparedRequest<B>| -> (Vec<HopObs>, FinalObs) {
         let shared = Arc::new(Mutex::new(Shared { scripts: case.hops.iter().map(|h| h.0.clone()).collect(), next: 0, dials: vec![] }));
         let sh = shared.clone();
@@ -588,7 +600,14 @@ fn finish<B: attohttpc::body::Body>(rb: attohttpc::RequestBuilder<B>, case: &Sen
                 }
             }
             let segs = s.scripts.get(i).cloned().unwrap_or_default();
+            if let Some((fi, after, kind)) = write_fault {
+                if fi == i {
+                    crate::script::set_write_fail_kind(kind);
+                    crate::script::set_write_fail_after(Some(after));
+                }
+            }
             let (script, log) = Script::new(segs);
+            crate::script::set_write_fail_kind(5);
             s.dials.push((info.clone(), log));
             Some(Ok(Box::new(script) as Box<dyn verif_hooks::Transport>))
         }));
@@ -633,7 +652,7 @@ fn finish<B: attohttpc::body::Body>(rb: attohttpc::RequestBuilder<B>, case: &Sen
     // caller's body that can be written only once, for multipart forms whose first transmission failed (C15 has
     // its own cases), and when a scripted dial failure was consumed by the first send.
     let one_shot = matches!(&case.body, BodyR::Custom { ctype: Some(ct), .. } if ct == ONE_SHOT);
-    if !one_shot && dial_failure.is_none() && !matches!(obs.fin, FinalObs::Panic) && RESEND.with(|r| r.get()) {
+    if !one_shot && dial_failure.is_none() && write_fault.is_none() && !matches!(obs.fin, FinalObs::Panic) && RESEND.with(|r| r.get()) {
         let (hops2, fin2) = send_once(&mut prepared);
         let show = |f: &FinalObs| format!("{:?}", f).chars().take(80).collect::<String>();
         if hops2.len() != obs.hops.len() {
